@@ -249,7 +249,9 @@ func c02Enumerate(tier string, seed int64, emit func(string, any)) {
 		return []*Node{
 			Method(p, "push", Int(9)), Method(p, "pop"), Method(p, "shift"), {K: KAssignIndex, A: p, B: Int(0), C: Int(7)}, {K: KAssignIndex, A: p, B: Int(-1), C: q}, {K: KAssignIndex, A: p, B: Str("k"), C: Int(6)},
 			{K: KAssignAttr, S: p.S, S2: "j", A: Int(4)}, {K: KAssignSlice, A: p, B: Int(0), C: Int(1), D: Arr(Int(8), Int(8))}, {K: KAssignSlice, A: p, B: Int(1), D: Arr()}, Assign(p.S, Bin("+", p, Arr(Int(5)))), Assign(p.S, Bin("*", p, Int(2))),
-			Assign(p.S, &Node{K: KSlice, A: p, B: Int(1)}), Assign(q.S, p), Assign(p.S, Arr(p, p)), Method(&Node{K: KIndex, A: p, B: Int(0)}, "push", Int(3)), Assign(p.S, Int(0)),
+			Assign(p.S, &Node{K: KSlice, A: p, B: Int(1)}), Assign(q.S, p), Assign(p.S, Arr(p, p)),
+			Assign(q.S, &Node{K: KSlice, A: p}), Assign(q.S, &Node{K: KSlice, A: p, B: Int(0)}), Assign(q.S, &Node{K: KSlice, A: p, B: Int(0), C: Int(3)}), Assign(q.S, &Node{K: KSlice, A: p, C: Int(-1)}),
+			Assign(q.S, Bin("+", p, Arr())), Assign(q.S, Bin("*", p, Int(1))), Assign(q.S, &Node{K: KIndex, A: Arr(p), B: Int(0)}), Method(&Node{K: KIndex, A: p, B: Int(0)}, "push", Int(3)), Assign(p.S, Int(0)),
 		}
 	}
 	all := append(opsF(a, b), opsF(b, a)...)
@@ -299,6 +301,22 @@ func c02Enumerate(tier string, seed int64, emit func(string, any)) {
 				}
 			}
 			dterms = append(dterms, dice(fmt.Sprintf("%dd%dmin3", xx, yy), xx, yy, 0, 0, ip(3), nil), dice(fmt.Sprintf("%dd%dmax1", xx, yy), xx, yy, 0, 0, nil, ip(1)))
+		}
+	}
+	var dsmall []*Node
+	for i, d := range dterms {
+		if d.Times > 0 && d.Sides > 0 && (i%4 == 0 || d.Min != nil || d.Max != nil) {
+			dsmall = append(dsmall, d)
+		}
+	}
+	for _, d1 := range dsmall {
+		for _, d2 := range dsmall {
+			for _, mode := range []int{-1, 1} {
+				v++
+				emit("H dice pairs under min/max mode", c02Case{Progs: [][]*Node{{Arr(d1, d2, d1)}}, Variant: v, Dice: mode})
+				v++
+				emit("H dice pairs under min/max mode", c02Case{Progs: [][]*Node{{Assign("x", d1), Bin("+", Bin("*", x, Int(100)), d2)}}, Variant: v, Dice: mode})
+			}
 		}
 	}
 	for _, d := range dterms {
